@@ -439,12 +439,13 @@ theorem plain_dep (sp : Spec) (hp : Plain sp) (cv : List Tok × Bool)
     unfold depElems
     simp only [pronominalizeDeps_id _ none (withPids_pro 0 _ hsubjpro)]
     rfl
-  unfold depToks depTyped
+  unfold depToks depTyped depStagePas depStageProg depStageMod depStageNeg
   simp only [hp.typ, helems]
   simp only [bind, Except.bind, pure, Except.pure, Bool.false_eq_true, if_false]
   unfold depReal
+  have hdc : ∀ a b : List Dep, depConsumed false a b = (a, b) := fun _ _ => rfl
   simp only [conjugate_nolier _ false _ (plainVerb_lier sp), hcv, bind, Except.bind, hcv2, Bool.false_eq_true, if_false,
-    Bool.false_and]
+    Bool.false_and, hdc]
   rw [withPids_filter_toks false 0 _ Dep.isPre hpre, withPids_filter_toks false 0 _ (fun d => !Dep.isPre d) hpost]
   simp only [List.filter_append, hcompPre, hcompPost, List.append_nil]
   rw [List.mapM_append, compDep_toks false sp.comps hp.comps]
